@@ -18,6 +18,9 @@ import docsem
 import ir
 
 MAX_REQUEST = 4000
+STRATEGY_TIMEOUT = 90
+STRATEGY_TIMEOUT_AFTER = 25   # once a strategy has timed out three times in this run
+_TIMEOUTS = {}
 
 
 def oracle_all(ds):
@@ -80,10 +83,16 @@ def analyse(program, strategies=("IterateSATGen", "RandomGen"), want_oracle=True
     res["requested"] = n
     for s in strategies:
         # a fresh build per strategy: properties about reuse are checked elsewhere
-        b2 = ir.build(program)
-        blk2 = ir.main_block(b2, program)
         t0 = time.time()
-        r = ir.synthesize(blk2, n, s)
+        # in a forked child with a time limit: a sampler may never return (RandomGen draws
+        # until it has seen every candidate key it believes exists) or terminate the process
+        limit = STRATEGY_TIMEOUT if _TIMEOUTS.get(s, 0) < 3 else STRATEGY_TIMEOUT_AFTER
+        r = ir.synthesize_isolated(program, n, s, timeout=limit)
+        if r[0] == "crash":
+            if r[1] == "timeout":
+                _TIMEOUTS[s] = _TIMEOUTS.get(s, 0) + 1
+            r = ("error", "Timeout" if r[1] == "timeout" else "ProcessTerminated",
+                 "no result within %d s" % limit if r[1] == "timeout" else "process status %s" % r[1])
         if r[0] == "ok":
             keys = []
             bad_shape = None
@@ -95,7 +104,7 @@ def analyse(program, strategies=("IterateSATGen", "RandomGen"), want_oracle=True
                     break
             extra_keys = sorted(set(str(k) for smp in r[1] for k in smp.keys()) - set(names))
             res["real"][s] = {"status": "ok", "keys": keys, "bad_shape": bad_shape, "extra_keys": extra_keys,
-                              "outside_domain": list(b2.outside_domain)[:3], "wall": time.time() - t0}
+                              "outside_domain": [], "wall": time.time() - t0}
             if ds is not None and keys:
                 seqs = []
                 unk = False
